@@ -35,6 +35,11 @@ func sanAtoms() []gnAtom {
 		u("https://example.com/path"), u("sip:alice@sip.example.com"), u("https://intranet_host/path"), u("mailto:?to=a@example.com"), u("http://[::1]/"), u("urn:x:y"), u("/relative"), u("https://"), u("http://a b/"),
 		e("alice@example.com"), e(""), e("not-an-email"), e("A@EXAMPLE.com"), e(" alice@example.com"),
 		ip(192, 0, 2, 1), ip(10, 0, 0, 1), ip(8, 8, 8, 8), ip(0x20, 0x01, 0x0d, 0xb8, 0, 0, 0, 0, 0, 0, 0, 0, 0, 0, 0, 1), ip(127, 0, 0, 1), ip(1, 2, 3),
+		// reverse-DNS names (both zones, reserved and public addresses, wrong label counts / widths) and names that only look like addresses
+		d("1.1.168.192.in-addr.arpa"), d("8.8.8.8.in-addr.arpa"), d("1.0.0.127.in-addr.arpa"), d("1000.1.168.192.in-addr.arpa"), d("1.168.192.in-addr.arpa"), d("in-addr.arpa"), d("x.in-addr.arpa"),
+		d("10.20.30.10"), d("8.8.4.4"), d("1.2.3"), d("256.1.1.1"),
+		d("1.0.0.0.0.0.0.0.0.0.0.0.0.0.0.0.0.0.0.0.0.0.0.0.8.b.d.0.1.0.0.2.ip6.arpa"), d("8.8.8.8.0.0.0.0.0.0.0.0.0.0.0.0.0.0.0.0.0.0.0.0.0.0.0.0.0.0.0.0.ip6.arpa"),
+		d("1.0.0.0.0.0.0.0.0.0.0.0.0.0.0.0.0.0.0.0.0.0.0.0.0.0.0.0.0.0.0.0.ip6.arpa"), d("10.0.0.0.0.0.0.0.0.0.0.0.0.0.0.0.0.0.0.0.0.0.0.0.0.0.0.0.0.0.0.0.ip6.arpa"), d("1.0.ip6.arpa"), d("ip6.arpa"),
 		{"other:upn", func() *Node { return gnOtherName("1.3.6.1.4.1.311.20.2.3", "u@x", false) }},
 		{"rid", func() *Node { return prim(0x88, []byte{0x2a, 0x03, 0x04}) }},
 		{"dirname", func() *Node {
@@ -61,6 +66,44 @@ func boundaryAtoms(d, u, e func(string) gnAtom) []gnAtom {
 	out = append(out, d(".example.com"), d("example..com"), d("."), d(".."), d("a."), d(".a"), d("a.b..c.d"))
 	out = append(out, d(strings.Repeat("a.", 126)+"com"), d(strings.Repeat("a.", 127)+"com"))
 	out = append(out, u("https://ex\u00e4mple.com/"), u("https://example.com/p\u00e4th"), u("http://\xff/"), e("\u00e4lice@example.com"), e("alice@ex\u00e4mple.com"))
+	return out
+}
+
+// atomFamilies groups the dNSName atoms by what they share: the suffix of two labels, a reverse-DNS zone, looking like an address
+func atomFamilies(atoms []gnAtom) [][]gnAtom {
+	by := map[string][]gnAtom{}
+	var keys []string
+	add := func(k string, a gnAtom) {
+		if _, ok := by[k]; !ok {
+			keys = append(keys, k)
+		}
+		by[k] = append(by[k], a)
+	}
+	for _, a := range atoms {
+		if !strings.HasPrefix(a.desc, "dns:") {
+			continue
+		}
+		name := strings.ToLower(strings.TrimSuffix(a.desc[4:], "."))
+		labels := strings.Split(name, ".")
+		switch {
+		case strings.HasSuffix(name, ".arpa") || name == "arpa":
+			add("arpa", a)
+		case len(labels) >= 2:
+			add(strings.Join(labels[len(labels)-2:], "."), a)
+		}
+		if len(labels) >= 3 && len(labels) <= 4 && strings.Trim(name, "0123456789.") == "" {
+			add("arpa", a) // address-like names next to reverse-DNS names
+		}
+	}
+	var out [][]gnAtom
+	for _, k := range keys {
+		if len(by[k]) >= 3 {
+			out = append(out, by[k])
+		}
+	}
+	if len(out) == 0 {
+		out = append(out, atoms)
+	}
 	return out
 }
 
@@ -135,8 +178,15 @@ func subC17(out string, seed uint64, tier string, arg string) {
 		}
 		var names []*Node
 		var descs []string
+		// two lists in five are drawn from one *family* of related names (same registered domain, same reverse zone, same
+		// address class): an effect of one entry on the judgement of another needs entries that have something in common
+		pool := atoms
+		if rng.Intn(5) < 2 {
+			fams := atomFamilies(atoms)
+			pool = fams[rng.Intn(len(fams))]
+		}
 		for j := 0; j < n; j++ {
-			a := atoms[rng.Intn(len(atoms))]
+			a := pool[rng.Intn(len(pool))]
 			names = append(names, a.node())
 			descs = append(descs, a.desc)
 		}
